@@ -320,6 +320,24 @@ def disabled_model():
         except (ValueError, KeyError):
             ok2 = False
         vx.prove("C08/undeclared_argument/rejected", not ok2)
+        # two models may carry the same name in different groups: the key's group segment decides which one is meant
+        from pyxel.pipelines import DetectionPipeline, ModelFunction, Processor
+
+        en_a, en_b = vx.boolean("twin_a_enabled"), vx.boolean("twin_b_enabled")
+        pipe2 = DetectionPipeline(
+            photon_collection=[ModelFunction(func="vxprobes.probe", name="twin", arguments={"level": 1.0}, enabled=en_a)],
+            charge_collection=[ModelFunction(func="vxprobes.probe_a", name="twin", arguments={"level": 2.0}, enabled=en_b)])
+        proc2 = Processor(detector=proc.detector, pipeline=pipe2)
+        for grp, flag in (("photon_collection", en_a), ("charge_collection", en_b)):
+            o = Observation(parameters=[ParameterValues(key=f"pipeline.{grp}.twin.arguments.level", values=[0.1, 0.2])], readout=Readout(times=[1.0]))
+            try:
+                o.validate_steps(proc2)
+                okt = True
+            except (ValueError, KeyError):
+                okt = False
+            vx.prove(f"C08/disabled_model_argument/same_name_other_group/{grp}", okt == bool(flag))
+        proc2.set("pipeline.charge_collection.twin.arguments.level", 9.0)
+        vx.prove("C08/set/same_name_other_group", proc2.get("pipeline.charge_collection.twin.arguments.level") == 9.0 and proc2.get("pipeline.photon_collection.twin.arguments.level") == 1.0)
         for how in ("item", "attr"):
             try:
                 if how == "item":
